@@ -304,6 +304,22 @@ def resolve_op(model, op):
     raise KeyError(k)
 
 
+def expand_op(model, op):
+    """-> list of (span key, offset, length, primitive op); delete_function
+    expands to a whole-block proxy deletion of every block of the function"""
+    if op["k"] == "delfn":
+        out = []
+        for lst in model.span_list.values():
+            for sp in lst:
+                if sp.func == op["func"] and sp.kind == "code" and sp.size:
+                    out.append((sp.key, 0, sp.size, {"k": "delblock", "proxy": True}))
+        if not out:
+            raise core.Rejected("function has no blocks")
+        return out
+    key, off, length = resolve_op(model, op)
+    return [(key, off, length, op)]
+
+
 def _locate(model, tok_id):
     for sp in model.spans.values():
         for off, tid in sp.offsets.items():
@@ -379,6 +395,7 @@ def run_session(world, model, sdesc, armed, index, logger=None, gen_cb=None, che
     ops = sdesc["ops"]
     order = sdesc.get("reg_order") or list(range(len(ops)))
     sess.resolved = {}
+    sess.expanded = {}
     sess.patches = {}
     sess.reg_id = {}
     reg_counter = 0
@@ -404,6 +421,16 @@ def run_session(world, model, sdesc, armed, index, logger=None, gen_cb=None, che
                 ctx.delete_at(blk, 0, blk.size, retarget_to_proxy=bool(op.get("proxy")))
             sess.reg_id[oi] = reg_counter
             reg_counter += 1
+        elif k == "delfn":
+            fu = world.func_uuid.get(op["func"])
+            fobj = next((f for f in functions if f.uuid == fu), None)
+            if fobj is None:
+                raise core.Rejected("no such function")
+            exp = expand_op(model, op)
+            sess.expanded[oi] = [(key, off, length) for key, off, length, _ in exp]
+            ctx.delete_function(fobj)
+            sess.reg_id[oi] = reg_counter
+            reg_counter += len(exp)
         else:
             raise core.HarnessError(f"unknown op kind {k}")
     with instrumented(sess):
@@ -429,11 +456,18 @@ def apply_to_model(sess):
     for oi, (key, off, length) in sess.resolved.items():
         sp = model.spans[key]
         mods.append(((model.section_order.index(sp.sect), _unit_rank(model, sp), sp.start), off, sess.reg_id[oi], oi, key, length))
+    for oi, lst in sess.expanded.items():
+        for n, (key, off, length) in enumerate(lst):
+            sp = model.spans[key]
+            mods.append(((model.section_order.index(sp.sect), _unit_rank(model, sp), sp.start), off, sess.reg_id[oi] + n, oi, key, length))
     mods.sort()
     md = world.isa.cs()
     for _, off, rid, oi, key, length in mods:
         op = ops[oi]
         k = op["k"]
+        if k == "delfn":
+            model.delete(key, off, length, proxy=True)
+            continue
         if k in ("del", "delblock"):
             model.delete(key, off, length, proxy=bool(op.get("proxy")))
             continue
